@@ -213,6 +213,11 @@ func (b *bigmachineExecutor) invocationReader(invIndex uint64) (io.ReadCloser, e
 func (b *bigmachineExecutor) addInvocation(inv execInvocation) (bool, error) {
 	b.mu.Lock()
 	defer b.mu.Unlock()
+	return b.addInvocationLocked(inv)
+}
+
+// addInvocationLocked implements addInvocation; b.mu must be held.
+func (b *bigmachineExecutor) addInvocationLocked(inv execInvocation) (bool, error) {
 	if _, ok := b.invocations[inv.Index]; ok {
 		return false, nil
 	}
@@ -228,7 +233,15 @@ func (b *bigmachineExecutor) addInvocation(inv execInvocation) (bool, error) {
 			continue
 		}
 		if _, ok := b.invocations[result.invIndex]; !ok {
-			panic(fmt.Sprintf("result from unknown invocation %d", result.invIndex))
+			// No task of the result's own invocation has run here: its Func
+			// contributed no tasks (it returned a result argument as is).
+			// Workers still need the invocation to resolve the reference.
+			if result.sess == nil || result.inv.Index != result.invIndex {
+				panic(fmt.Sprintf("result from unknown invocation %d", result.invIndex))
+			}
+			if _, err := b.addInvocationLocked(result.inv); err != nil {
+				return false, err
+			}
 		}
 		inv.Args[i] = invocationRef{result.invIndex}
 		if b.invocationDeps[inv.Index] == nil {
